@@ -34,7 +34,7 @@ func c05MinimalCases() []c05Case {
 	str := func(f *c05Fld) { f.Str = true }
 	strOpts := func(f *c05Fld) { f.Str = true; f.Opts = []string{"1", "2"} }
 	env := func(v string) func(*c05Fld) { return func(f *c05Fld) { f.Env = true; f.EV = &v } }
-	return []c05Case{
+	cases := []c05Case{
 		// F1 jsonnumber-overflow
 		c05One(sc("int8"), nil, c05Num("300")),
 		c05One(sc("int8"), nil, c05Num("-129")),
@@ -97,6 +97,21 @@ func c05MinimalCases() []c05Case {
 		c05One(sc("int"), func(f *c05Fld) { env("70000")(f); f.Rng = &c05Rng{L: "1", R: "65535", LI: true, RI: true} }, c05Num("80")),
 		c05One(sc("dur"), env("1h"), c05Str("1s")),
 	}
+	// default=[{...},{}] on a slice of structs whose element has its own defaulted slices (absent in the document)
+	dflt := func(d string) *string { return &d }
+	rule := c05Typ{K: "struct", F: []c05Fld{
+		{W: []string{"name"}, T: c05Typ{K: "string"}, Tag: "json", KS: "camel", Def: dflt("any")},
+		{W: []string{"on"}, T: c05Typ{K: "bool"}, Tag: "json", KS: "camel", Opt: true},
+		{W: []string{"methods"}, T: sl(sc("string")), Tag: "json", KS: "camel", Def: dflt("[GET,POST]")},
+		{W: []string{"codes"}, T: sl(sc("int")), Tag: "json", KS: "camel", Def: dflt("[200,204]")},
+	}}
+	rules := c05Fld{W: []string{"rules"}, T: sl(rule), Tag: "json", KS: "camel", Def: dflt(`[{"on1":true},{}]`)}
+	cases = append(cases,
+		c05Case{S: []c05Fld{rules}, D: c05Obj()},
+		c05Case{S: []c05Fld{rules}, D: c05Obj(c05KV{K: "rules0", V: c05Arr(c05Obj())})},
+	)
+	return cases
+}
 }
 
 // c05DumpReplays writes one replay file (kit.ReplayFile format, rule "json") per
